@@ -96,6 +96,20 @@ def valEq : Val → Val → Option Bool
   | .obj _, .nil => some false
   | _, _ => none
 
+section valEqLemmas
+variable (a b : Bool) (i j : Int) (s t : String) (f : String) (k : Nat) (w : List Val) (fs : List (String × Val))
+@[simp] theorem valEq_bool : valEq (.bool a) (.bool b) = some (decide (a = b)) := rfl
+@[simp] theorem valEq_int : valEq (.int i) (.int j) = some (decide (i = j)) := rfl
+@[simp] theorem valEq_str : valEq (.str s) (.str t) = some (decide (s = t)) := rfl
+@[simp] theorem valEq_nil_nil : valEq .nil .nil = some true := rfl
+@[simp] theorem valEq_nil_err : valEq .nil (.err f k w) = some false := rfl
+@[simp] theorem valEq_err_nil : valEq (.err f k w) .nil = some false := rfl
+@[simp] theorem valEq_nil_int : valEq .nil (.int i) = some false := rfl
+@[simp] theorem valEq_int_nil : valEq (.int i) .nil = some false := rfl
+@[simp] theorem valEq_nil_obj : valEq .nil (.obj fs) = some false := rfl
+@[simp] theorem valEq_obj_nil : valEq (.obj fs) .nil = some false := rfl
+end valEqLemmas
+
 def binop (op : BinOp) (a b : Val) : Option Val :=
   match op, a, b with
   | .eq, a, b => (valEq a b).map .bool
@@ -135,6 +149,24 @@ def field (v : Val) (f : String) : Option Val :=
 def pack : List Val → Val
   | [v] => v
   | vs => .tuple vs
+
+/-- a single multi-valued call on the right of `:=` / after `return` spreads into its values -/
+def flatten : List Val → List Val
+  | [.tuple ws] => ws
+  | vs => vs
+
+@[simp] theorem flatten_nil : flatten [] = [] := rfl
+@[simp] theorem flatten_two (a b : Val) (l : List Val) : flatten (a :: b :: l) = a :: b :: l := by
+  cases a <;> rfl
+@[simp] theorem flatten_tuple (ws : List Val) : flatten [.tuple ws] = ws := rfl
+@[simp] theorem flatten_bool (b : Bool) : flatten [.bool b] = [.bool b] := rfl
+@[simp] theorem flatten_int (i : Int) : flatten [.int i] = [.int i] := rfl
+@[simp] theorem flatten_str (s : String) : flatten [.str s] = [.str s] := rfl
+@[simp] theorem flatten_vnil : flatten [.nil] = [.nil] := rfl
+@[simp] theorem flatten_err (f : String) (k : Nat) (w : List Val) : flatten [.err f k w] = [.err f k w] := rfl
+@[simp] theorem flatten_obj (fs : List (String × Val)) : flatten [.obj fs] = [.obj fs] := rfl
+@[simp] theorem flatten_list (l : List Val) : flatten [.list l] = [.list l] := rfl
+@[simp] theorem flatten_opaque (n : Nat) : flatten [.opaque n] = [.opaque n] := rfl
 
 mutual
 def eval (env : Env) (s : Store) : Expr → Option Val
@@ -220,8 +252,7 @@ def rangeLoop (body : Store → Flow) (k v : String) : Nat → List Val → Stor
 mutual
 def exec (env : Env) (s : Store) : Stmt → Flow
   | .ret es => match evalArgs env s es with
-    | some [.tuple ws] => .ret ws        -- `return f(x)` with a multi-valued f
-    | some vs => .ret vs
+    | some vs => .ret (flatten vs)       -- `return f(x)` with a multi-valued f
     | none => .stuck
   | .ifs ini c t e =>
     match execBlock env (([] : Frame) :: s) ini with   -- scope of the if statement
@@ -239,10 +270,7 @@ def exec (env : Env) (s : Store) : Stmt → Flow
       | _ => .stuck)
     | _ => .stuck
   | .assign d ns es => match evalArgs env s es with
-    | some [.tuple vs] => (match sbindAll s d ns vs with
-      | some s' => .next s'
-      | none => .stuck)
-    | some vs => (match sbindAll s d ns vs with
+    | some vs => (match sbindAll s d ns (flatten vs) with     -- `a, b := f(x)`
       | some s' => .next s'
       | none => .stuck)
     | none => .stuck
